@@ -306,6 +306,31 @@ def remerge_cases(rnd, reps=12):
     return out
 
 
+def prearray_cases(rnd, reps=3):
+    """An array-backed stream is read k times and THEN merged (array node idx = k): with a pipe (fold into a pre-filled stream), with
+    another array (all-array merge), with a converted array."""
+    out = []
+    for k in (1, 2):
+        for other in ("pipe", "array", "conv(array)"):
+            for r in range(reps):
+                tree = [_node("array", items=[11, 12, 13], idx=k)]
+                if other == "pipe":
+                    tree.append(_node("pipe", cap=rnd.choice([0, 1]), items=[21, 22]))
+                    srcs = [1, 2]
+                elif other == "array":
+                    tree.append(_node("array", items=[21, 22], idx=(r % 2)))
+                    srcs = [1, 2]
+                else:
+                    tree += [_node("array", items=[21, 22]), _node("conv", src=[2])]
+                    srcs = [1, 3]
+                if r % 2:
+                    srcs = srcs[::-1]
+                tree.append(_node("merge", src=srcs))
+                out.append({"id": "pa-%d-%s-%d" % (k, other, r), "mode": "conc", "shape": "prearray", "tree": tree, "ops": [],
+                            "seed": rnd.randrange(1 << 30), "pclose": 0})
+    return out
+
+
 def burst_cases(rounds, prefix="b"):
     """Barrier driver: Pipe(1) -> Copy(n), n in 2..4; per round every copy is closed by its own goroutine, all released together; then the
     writer sends once.  One `burst` line per round, judged by StreamsObs (ObsBurst)."""
